@@ -121,3 +121,52 @@ for _cls, _type in (("pdb2pqr.aa:Amino", "ATOM"), ("pdb2pqr.aa:WAT", "HETATM")):
         modifies=["res.atoms.*", "res.map.*", "k_og.bonds.*"],
         name=f"{_cls.split(':')[1]}.create_atom", native=False,
     )
+
+
+# the two one-bond builders of the hydrogen optimiser (trusted stubs in cellproto.py): a new atom of the residue at the
+# position a two-point placement gives for it - structure points (the atom, its one neighbour) and template points of the
+# same two names, template target = the atom being built -, in no cell yet
+def REFA(nm, name):
+    return (name, Named(nm, Obj("pdb2pqr.definitions:DefinitionAtom", name=Const(name), x=Real, y=Real, z=Real, bonds=Items())))
+
+
+def atp(c, a):
+    return c[0] == a.x and c[1] == a.y and c[2] == a.z
+
+
+contract(
+    "pdb2pqr.hydrogens.optimize:Optimize.make_atom_with_one_bond_h", ["C05", "C14"],
+    params={"cls": Const(None),
+            "atom": Ref("k_og"),
+            "addname": Const("HG"),
+            "_res": Named("res", Obj("pdb2pqr.aa:SER", name=Const("SER"), atoms=Items(Ref("k_cb"), Ref("k_og")),
+                                     map=DictOf(("CB", Named("k_cb", Obj("pdb2pqr.structures:Atom", name=Const("CB"), x=Real, y=Real, z=Real,
+                                                                         bonds=Items(Ref("k_og")), residue=Ref("res")))),
+                                                ("OG", Named("k_og", Obj("pdb2pqr.structures:Atom", name=Const("OG"), x=Real, y=Real, z=Real,
+                                                                         bonds=Items(Ref("k_cb")), residue=Ref("res"))))),
+                                     pool=Items(Obj("pdb2pqr.structures:Atom", name=Const("??"), x=Real, y=Real, z=Real, bonds=Items(), cell=Const(None))),
+                                     reference=Obj("pdb2pqr.definitions:DefinitionResidue", map=DictOf(
+                                         REFA("t_cb", "CB"), REFA("t_og", "OG"), REFA("t_hg", "HG")))))},
+    requires=[],
+    ensures=[
+        "len(calls_of('find_coordinates')) == 1 and calls_of('find_coordinates')[0].args['numpoints'] == 2",
+        "atp(calls_of('find_coordinates')[0].args['refcoords'][0], k_og) and atp(calls_of('find_coordinates')[0].args['refcoords'][1], k_cb)",
+        "atp(calls_of('find_coordinates')[0].args['defcoords'][0], t_og) and atp(calls_of('find_coordinates')[0].args['defcoords'][1], t_cb)",
+        "atp(calls_of('find_coordinates')[0].args['defatomcoords'], t_hg)",
+        "'HG' in res.map and atp(calls_of('find_coordinates')[0].ret, res.map['HG']) and res.map['HG'].cell is None",
+        "len(res.atoms) == 3",
+    ],
+    stubs={"pdb2pqr.aa:Amino.create_atom": "stub_create_atom_r"},
+    trace={"pdb2pqr.quatfit:find_coordinates": TupleOf(Real, Real, Real)},
+    name="make_atom_with_one_bond_h", native=False,
+)
+
+
+def stub_create_atom_r(self, atomname, newcoords):
+    a = self.pool.pop(0)
+    a.name = atomname
+    a.x = newcoords[0]
+    a.y = newcoords[1]
+    a.z = newcoords[2]
+    self.atoms.append(a)
+    self.map[atomname] = a
